@@ -17,6 +17,7 @@ pub struct SysProgram;
 pub const DISC_ZC16: [u8; 8] = [0xA1, 1, 2, 3, 4, 5, 6, 0x1A];
 pub const DISC_ZCLIST: [u8; 8] = [0xB2, 0, 0, 0, 0, 0, 0, 0x2B];
 pub const DISC_BORSH: [u8; 8] = [0, 0, 0, 0xC3, 0, 0, 0, 0x3C];
+pub const DISC_BUNIT: [u8; 8] = [0xD4, 0, 0, 0, 0, 0, 0, 0x4D];
 pub const W: usize = 8;
 
 /// Zero-copy pod account, 16 bytes.
@@ -43,6 +44,12 @@ pub struct BData {
     pub a: u64,
     pub v: Vec<u8>,
 }
+
+/// Borsh account with an EMPTY encoding (discriminant-only account).
+#[derive(ProgramAccount, BorshSerialize, BorshDeserialize, Debug, Default, Clone, PartialEq, Eq)]
+#[program_account(skip_idl, discriminant = DISC_BUNIT)]
+#[borsh(crate = "star_frame::borsh")]
+pub struct BUnit;
 
 /// Arbitrary seed vectors (manual `GetSeeds`, as documented in seeded.rs).
 #[derive(Debug, Clone, PartialEq, Eq)]
